@@ -45,14 +45,19 @@ type runner struct {
 	scheduled bool // main actor runs under the scheduler (gates at step boundaries)
 	stop      bool // a recorded finding was hit: the model can no longer follow, end the run quietly
 
-	// journal written by the last clean shutdown
-	journal *journalSnap
+	// bookkeeping for the crash oracle (C20)
+	journals  []journalRec                    // every clean Journal() of the recorded run
+	pairs     map[uint64]map[common.Hash]bool // (state id, root) pairs that were ever on the flattened chain
+	parentOf  map[common.Hash]common.Hash     // root -> parent root of the accepted Update that created its layer
+	maxIDEver uint64
 }
 
-type journalSnap struct {
-	layers map[common.Hash]*lay
-	canon  []canonEntry
-	base   common.Hash
+// journalRec describes one journal the recorded run wrote.
+type journalRec struct {
+	startSeq, endSeq uint64        // global sequence numbers around the Journal() call
+	kvRoot           common.Hash   // persistent (key-value) state the journal is bound to
+	diskID           uint64        // state id of the journaled disk layer (>= persistent id)
+	chain            []common.Hash // journaled layers, disk layer first
 }
 
 func newRunner(p *Plan, w *world, res *simcore.Result) *runner {
@@ -60,6 +65,8 @@ func newRunner(p *Plan, w *world, res *simcore.Result) *runner {
 		everCanon: map[common.Hash]bool{}, logs: map[string]simcore.Hash64{}, trace: os.Getenv("VERIF_TRACE") != ""}
 	rn.lives[rn.m.base] = []*life{{born: true}}
 	rn.everCanon[rn.m.base] = true
+	rn.pairs = map[uint64]map[common.Hash]bool{0: {rn.m.base: true}}
+	rn.parentOf = map[common.Hash]common.Hash{}
 	return rn
 }
 
